@@ -340,7 +340,10 @@ def soundness(job):
                                               workload=job.get("name"),
                                               job=dict({x: job[x] for x in job if x not in ("lo", "hi")}, only=[seed], lo=seed, hi=seed + 1)))
                 break
-            explore.run_free(run, explore.Policy(pseed=h64(seed, sched), lazy_pct=40 * sched), max_steps=150, max_offers=250)
+            explore.run_free(run, explore.Policy(pseed=h64(seed, sched), lazy_pct=40 * sched), max_steps=150, max_offers=250,
+                             max_seconds=20)
+            if run.notes.get("time_capped"):
+                C["conducts_cut_by_the_time_cap"] = C.get("conducts_cut_by_the_time_cap", 0) + 1
             run.finish()
             out["evaluations"] += 1
             workloads.collect(out, dict(job, relabel=RELABEL), run, None, (seed, sched), lambda r, mm: True, extra=dict(edits=edits))
